@@ -175,7 +175,7 @@ def c14_2(R):
     # the result tells the caller whether a probe was really taken out: true only on a path that does not push the element back
     pushes = {t.bb for t in pm.calls() if call_on_field(pm, t, ("VecDeque::push_back",), "Segments.segments")}
     pops = {t.bb for t in pm.calls() if call_on_field(pm, t, ("VecDeque::pop_back",), "Segments.segments")}
-    bad_t = [it for it, cls in ret_assignments(pm) if cls == "const:1" and (any(it.bb in pm.reachable(p) for p in pushes) or not must_pass_blocks(pm, [it.bb], pops)[0])]
+    bad_t = [it for it, cls in ret_assignments(pm) if cls == "const:1" and (any(it.bb in pm.reachable(p) for p in pushes) or not must_pass_blocks(pm, [it.bb], pops)[0] or not any(d.endswith("=Some") for c, truth, d, *_ in controlling(pm, it.bb)))]
     bad_f = [it for it, cls in ret_assignments(pm) if cls == "const:0" and must_pass_blocks(pm, [it.bb], pops)[0] and any(d.endswith("=Some") for c, truth, d, *_ in controlling(pm, it.bb)) and not any(it.bb in pm.reachable(p) for p in pushes)]
     if not bad_t and not bad_f:
         R.ok("pop-probe-result", pm.name, "true <=> the last segment was removed and not pushed back")
@@ -418,3 +418,47 @@ def c14_6(R):
     else:
         R.fail([sp.name, "Ok-exit-before(pop_expired_mtu_probe)"], "split_tx_queue_into_segments can return with data in the ring before looking for an expired MTU probe: a probe dropped by the path is never taken back",
                where=bad[0].where(), witness=path_lines(sp, shortest_path(sp, 0, [bad[0].bb], removed_edges=set(zero) | closed, removed_blocks=pops)), instance="poll-with-data=>expired-probe-handled")
+
+
+@rule("C14.7", ["C14", "C10"], ["E4", "E3"], "the proven size never exceeds the ceiling: min_ss <= max_ss is preserved by every writer",
+      "next_probe computes max_ss - min_ss (it overflows - a panic in checked builds, a 64 KiB 'probe' otherwise - as soon as min_ss > max_ss, and a peer can raise min_ss with a large payload). "
+      "Outside SegmentSizes::new every store to max_ss is `x.max(self.min_ss)` where that read of min_ss is not followed by a later store to min_ss in the same function, and every store to min_ss "
+      "is followed on every path by a store to max_ss (which re-establishes the order).")
+def c14_7(R):
+    F = R.facts
+    n = 0
+    for b in F.bodies(lambda nm: nm.startswith("mtu::SegmentSizes::") and not nm.endswith("::new")):
+        wmax = [s for s in b.stmts() if written_field(b, s) == "SegmentSizes.max_ss"]
+        wmin = [s for s in b.stmts() if written_field(b, s) == "SegmentSizes.min_ss"]
+        for s in wmax:
+            n += 1
+            t = trace(b, s.rv.ops[0]) if s.rv.ops else None
+            ok = False
+            if t is not None and t.kind == "call" and call_matches(t.root[1], ("Ord::max",)) and not t.fields:
+                for a in t.root[1].args:
+                    ta = trace(b, a)
+                    if ta.last_field == "SegmentSizes.min_ss":
+                        reads = [st for st in ta.steps if isinstance(st, Stmt) and st.rv.ops and st.rv.ops[0].place is not None and st.rv.ops[0].place.last_field == "SegmentSizes.min_ss"]
+                        stale = any(point_reaches(b, rd, w) and point_reaches(b, w, s) for rd in reads for w in wmin)
+                        ok = bool(reads) and not stale
+            if ok:
+                R.ok("max_ss>=min_ss", b.name, "max_ss = (..).max(current min_ss)")
+            else:
+                R.fail([b.name, "write(SegmentSizes.max_ss)", "not-max-with-current(min_ss)"], "a store to max_ss does not end in .max(self.min_ss) of the current min_ss: min_ss can exceed max_ss and next_probe's max_ss - min_ss underflows (panic / absurd probe size)", where=s.where(), instance="max_ss>=min_ss")
+        for w in wmin:
+            n += 1
+            after = {s.bb for s in wmax if point_reaches(b, w, s)}
+            reach_ret = [r for r in b.return_blocks() if r in b.reachable(w.bb, removed_blocks=after - {w.bb})] if not any(s.bb == w.bb and s.idx > w.idx for s in wmax) else []
+            if after and not reach_ret:
+                R.ok("min_ss-store=>max_ss-restored", b.name)
+            else:
+                R.fail([b.name, "write(SegmentSizes.min_ss)", "not-followed-by(max_ss store)"], "min_ss is raised without re-establishing max_ss >= min_ss afterwards", where=w.where(), instance="min_ss-store=>max_ss-restored")
+    R.floor("stores to min_ss / max_ss outside new", n, 3)
+
+
+@rule("C14.8", ["C14", "C07"], ["E4"], "mss() is the proven size and max_ss() the ceiling",
+      "SegmentSizes::mss returns min_ss and SegmentSizes::max_ss returns max_ss (table frozen in engine/pinned_fns.json): the sender's ordinary segment size, the 2 * MSS immediate-ACK threshold and "
+      "the receive-window rounding all read the proven size through mss().")
+def c14_8(R):
+    n = check_getters(R, ("mtu::",))
+    R.floor("SegmentSizes accessors", n, 2)
